@@ -1,5 +1,6 @@
 import Fosite.Driver.Pure
 import Fosite.Driver.Hist
+import Fosite.Spec.Monitor
 open Fosite.Driver
 
 def chomp (line : String) : String :=
@@ -26,6 +27,23 @@ partial def histLoop (h : IO.FS.Stream) (out : IO.FS.Stream) (st : HistState) : 
     out.putStrLn o
     histLoop h out st'
 
+/-- monitor: reads alternating (operation, observation) lines; prints the hits for each pair -/
+partial def monitorLoop (h : IO.FS.Stream) (out : IO.FS.Stream) (b : Fosite.Spec.Monitor.Book) : IO Unit := do
+  let l1 ← h.getLine
+  if l1.isEmpty then return ()
+  let l2 ← h.getLine
+  let op := chomp l1
+  let obs := chomp l2
+  if op == "reset" then
+    out.putStrLn ""
+    monitorLoop h out {}
+  else
+    let f := fields op
+    let o := Fosite.Spec.Monitor.outSeg obs
+    let hits := Fosite.Spec.Monitor.check b f o
+    out.putStrLn (" ".intercalate hits)
+    monitorLoop h out (Fosite.Spec.Monitor.update b f o)
+
 def main (args : List String) : IO UInt32 := do
   let stdin ← IO.getStdin
   let stdout ← IO.getStdout
@@ -33,4 +51,5 @@ def main (args : List String) : IO UInt32 := do
   | ["pure-model"] => pureLoop stdin stdout pureModel; return 0
   | ["pure-spec"] => pureLoop stdin stdout pureSpec; return 0
   | ["hist-model"] => histLoop stdin stdout {}; return 0
+  | ["monitor"] => monitorLoop stdin stdout {}; return 0
   | _ => IO.eprintln "usage: fzdriver (pure-model|pure-spec|hist-model)"; return 2
